@@ -865,13 +865,14 @@ func genCodecE2E(c *ctx) {
 	work, _ := os.MkdirTemp("", "e2e_codec_")
 	defer os.RemoveAll(work)
 	type wcase struct {
-		cfg   e2eCfg
-		seed  int64
-		sizes []int
-		desc  string
-		viol  string
-		key   string
-		nprot int
+		cfg      e2eCfg
+		seed     int64
+		sizes    []int
+		desc     string
+		viol     string
+		key      string
+		nprot    int
+		typeKeys bool
 	}
 	var cases []*wcase
 	// escape on/off x compress yes/no/auto x protocol: as negotiated (4), forced 2, and the
@@ -889,6 +890,25 @@ func genCodecE2E(c *ctx) {
 				}
 			}
 		}
+	}
+	// legacy senders escape AFTER cutting the chunk: an escaped chunk may be longer than the buffer
+	// size the receiver announced (16k chunks full of protected bytes, protocols 1 and 2)
+	for _, proto := range []int{0, 2} {
+		wc := &wcase{seed: c.rng.Int63()}
+		wc.cfg = e2eCfg{upload: true, binary: true, escape: proto == 0, compress: "no", timeout: 10, proto: proto,
+			bufsize: "16k", quiet: true, deadline: 40 * time.Second}
+		wc.sizes = []int{50000}
+		wc.desc = fmt.Sprintf("%s sizes=%v seed=%d legacy 16k chunks of protected bytes", describeCfg(wc.cfg), wc.sizes, wc.seed)
+		cases = append(cases, wc)
+	}
+	// keys typed by the user while an upload runs belong to nobody: they must not reach the connection
+	for _, escape := range []bool{false, true} {
+		wc := &wcase{seed: c.rng.Int63(), typeKeys: true}
+		wc.cfg = e2eCfg{upload: true, binary: true, escape: escape, compress: "no", timeout: 10, proto: -1,
+			bufsize: "4k", quiet: true, deadline: 40 * time.Second}
+		wc.sizes = []int{40000}
+		wc.desc = fmt.Sprintf("%s sizes=%v seed=%d keys '~' Enter 'q' typed during the upload", describeCfg(wc.cfg), wc.sizes, wc.seed)
+		cases = append(cases, wc)
 	}
 	// a tunnel that is only half established: the client's greeting reaches the server at once, the
 	// server's answer comes back after the client's one-second grace period, so the client gives the
@@ -922,6 +942,28 @@ func genCodecE2E(c *ctx) {
 			p := filepath.Join(root, "s", fmt.Sprintf("~f%d~.bin", j))
 			os.WriteFile(p, fillBytes(rng, n, 3), 0644)
 			tops = append(tops, p)
+		}
+		if wc.typeKeys {
+			var run *e2eRun
+			var rmu sync.Mutex
+			wc.cfg.onStart = func(r *e2eRun) { rmu.Lock(); run = r; rmu.Unlock() }
+			var once sync.Once
+			wc.cfg.hook = func(d, i int, b []byte) e2eAction {
+				if d == dirC2S && bytes.Contains(b, []byte("#DATA:")) {
+					once.Do(func() {
+						rmu.Lock()
+						r := run
+						rmu.Unlock()
+						if r != nil {
+							for _, k := range []string{"~", "\r", "q"} {
+								r.cliIn.Write([]byte(k))
+								time.Sleep(15 * time.Millisecond)
+							}
+						}
+					})
+				}
+				return e2eAction{}
+			}
 		}
 		res := runTransfer(wc.cfg, tops, dest)
 		if res.hung || !res.clientDone || res.uploadErr != nil {
